@@ -231,6 +231,32 @@ def main(tier):
                 nm, lo, hi, e["msg"], e["file"], e["index"], e["line"], text[:1500]),
                 {"kind": "path_fault", "variant": nm, "file": text, "span": [lo, hi], "observed": o, "signature": sig}, sig)
     chk.extra["path_directive_faults"] = len(pmeta)
+    # an undefined type named inside one of two types that refer to each other: whichever type is being compiled when
+    # the schema library notices it, the diagnostic names the line of the reference
+    mcases = []
+    for k in range(12 if thorough else 6):
+        pad = "# pad\n" * k
+        for first in ("a", "b"):
+            ta = 'TYPE @a\n{\n  "x": @nope1,\n  "y": @b\n}\n'
+            tb = 'TYPE @b\n{\n  "a": @a // {optional: true}\n}\n'
+            text = "JSIGHT 0.3\n" + pad + (ta + tb if first == "a" else tb + ta) + "GET /x\n  200 @%s\n" % first
+            mcases.append((rel.case("mt%d%s" % (k, first), text), text))
+    mobs = harness("run", [c for c, _ in mcases])
+    for c, text in mcases:
+        o = mobs[c["id"]]
+        chk.evaluations += 1
+        chk.traces += 1
+        chk.nontrivial.add(text)
+        if o["outcome"] != "error" or "@nope1" not in o["err"]["msg"]:
+            continue
+        lo = text.index('"x": @nope1')
+        hi = lo + len('"x": @nope1,')
+        e = o["err"]
+        if not (lo <= e["index"] <= hi):
+            sig = {"what": "outside-directive", "variant": "mutual_types"}
+            chk.violation("undefined type named at bytes %d..%d, but the diagnostic %r is at %s byte %d (line %d) | document:\n%s" % (
+                lo, hi, e["msg"], e["file"], e["index"], e["line"], text),
+                {"kind": "path_fault", "variant": "mutual_types", "file": text, "span": [lo, hi], "observed": o, "signature": sig}, sig)
     # include graphs enumerated by TLC (spec/JSightInclude.tla), replayed with the file-operation hook on
     incgraph.run(chk, tier, "C02")
     chk.rule = ("location table: all single-convention contents <= %d x all indices; rejected runs of fixtures, TLC-generated "
